@@ -18,7 +18,8 @@ RULE = ("exhaustive: alphabet {AAAC, GTTT(=rc AAAC), ACGT(palindrome), CCTA, TTG
         "multiset of <=2 (quick; thorough <=3) modules over the 49 (start,end) types x every distinct permutation; quick adds 3000 "
         "sampled triples with all permutations; random graphs of 4..7 modules over pools of 6..8 overhangs for BsaI (k=4), BspQI (k=3) "
         "and a k=5 enzyme. Non-trivial = the graph has at least one module whose start or end overhang equals, complements or "
-        "coincides with another overhang of the call (i.e. not a set of unrelated overhangs); distinct = distinct (vector, ordered module types).")
+        "coincides with another overhang of the call (i.e. not a set of unrelated overhangs); distinct = distinct (vector, ordered module types)."
+        " Second session: in every other run each plasmid is written from an origin of its own (string rotation), and in half of the runs module records share an id (all unnamed, or in pairs).")
 ASSUMPTIONS = [
     "plasmids are well-formed (exactly one site per strand); when several error conditions hold at once any of the matching errors is accepted",
     "a product is accepted only when no error condition holds",
